@@ -484,7 +484,7 @@ func warmUp(u uhppote.IUHPPOTE, d *memdrv.Driver, c cfgCase) {
 		spec.Header(st, 0x17, 0x20, serial)
 		d.Reset(st)
 		u.GetStatus(serial)
-		if g, ok := getFor[c.Case.Call.Op]; ok && c.Case.V.ListenerRaw == "" {
+		if g, ok := getFor[c.Case.Call.Op]; ok {
 			rep := append([]byte(nil), spec.Request(c.Case.Call)...)
 			spec.Header(rep, 0x17, spec.Responses[g].Code, serial)
 			get := c.Case
